@@ -139,7 +139,11 @@ def run(chk: Check, repo: Repo) -> None:
     cfg_r = CFG(run_.node)
     n = 0
     kinds = (None, "ValueError", "CouldNotParseTelegram", "CommunicationError", "XKNXException")
-    for w1, w2, r1, r2 in product((False, True), (False, True), kinds, kinds):
+    # "raise": the filter itself raises (AddressFilter.match refuses an address whose level does not fit the pattern) -
+    # that is the callback's own failure and must not cost the others, or the devices, the telegram
+    for w1, w2, r1, r2 in product((False, True, "raise"), (False, True, "raise"), kinds, kinds):
+        if (w1 == "raise" and r1) or (w2 == "raise" and r2):
+            continue
         cb = (Obj("Callback", "cb1", (("within", w1), ("raises", r1))), Obj("Callback", "cb2", (("within", w2), ("raises", r2))))
 
         def cm(c: ast.Call, env):
@@ -147,6 +151,8 @@ def run(chk: Check, repo: Repo) -> None:
                 recv = env.get(ast.unparse(c.func.value))
                 if isinstance(recv, Obj) and recv.cls == "Callback":
                     if c.func.attr == "is_within_filter":
+                        if recv.get("within") == "raise":
+                            return [Outcome(None, Raise("ValueError"))]
                         return [Outcome(None, recv.get("within"))]
                     if c.func.attr == "callback":
                         return [Outcome(f"CALL:{recv.tag}", Raise(recv.get("raises")) if recv.get("raises") else None)]
@@ -157,14 +163,9 @@ def run(chk: Check, repo: Repo) -> None:
         am = AbsMachine(cfg_r, exc, cm)
         paths = Explorer(cfg_r, repo, am.step).run(cfg_r.entry, [], {"self.telegram_received_cbs": cb})
         got = {(tuple(t for t in p.env.get("trace", ()) if t.startswith("CALL:")), p.end_kind) for p in paths}
-        want = {(tuple(f"CALL:{c.tag}" for c in cb if c.get("within")), "exit")}
+        want = {(tuple(f"CALL:{c.tag}" for c in cb if c.get("within") is True), "exit")}
         n += 1
         chk.ob("callback-dispatch", run_.site(), got == want, f"cb1(within={w1}, raises={r1}) cb2(within={w2}, raises={r2}): code {sorted(got)}; reference {sorted(want)}", key=f"dispatch|{w1}|{w2}|{r1}|{r2}" + ("" if got == want else f"|{sorted(got)}"))
     chk.count("dispatch_cells", n)
-    from ..astx import attr_writes
-    ws = [w for w in attr_writes(repo, "telegram_received_cbs") if w.func.module.name == TQ]
-    init_ok = any(w.kind == "assign" and isinstance(getattr(w.stmt, "value", None), ast.List) and not w.stmt.value.elts for w in ws)
-    muts = sorted({w.kind for w in ws if w.kind.startswith("mutcall:")})
-    chk.ob("callback-registry-is-list", run_.site(), init_ok and set(muts) <= {"mutcall:append", "mutcall:remove"}, f"telegram_received_cbs is a list literal ({init_ok}) mutated only by {muts}: registration order is kept and (un)registering from inside a callback does not raise during dispatch", key="callback-registry-is-list")
     chk.rule("E7 truth table of Callback.is_within_filter vs the oracle formula; abstract path enumeration of the dispatch loop over two callbacks x {within filter} x {raises}")
     chk.assume("AddressFilter.match is decided by C02; callbacks raise Exception subclasses (BaseException such as CancelledError propagates by design)")
